@@ -56,7 +56,7 @@ class St:
         self.order = ()
         self.emits = ()
         self.transferred = frozenset()
-        self.od = Lin(0)            # the compiler's own count of pending operands (CompilationScope.operand_depth), relative
+        self.od = Lin(0, {"od0": 1})  # the compiler's own count of pending operands (CompilationScope.operand_depth), relative
         self.minh = Lin(0)          # lowest height any emitted instruction reaches into, relative to the start of the construct
 
     def copy(self):
@@ -350,7 +350,7 @@ class Engine:
                 elif n["name"] == "break_positions":
                     out.append(("n", s, ("breakvec", v[1])))
                 elif n["name"] == "operand_depth":
-                    out.append(("n", s, ("lin", v[2] if len(v) > 2 and v[2] is not None else Lin(0, {"od(loop)": 1}))))
+                    out.append(("n", s, ("lin", v[2] if len(v) > 2 and v[2] is not None else Lin(0, {"od0": 1, "od(loop)": 1}))))
                 elif n["name"] == "label":
                     out.append(("n", s, ("opt", "?", ("looplabel",))))
                 else:
@@ -920,7 +920,7 @@ class Engine:
                     dv = vs[1][2] if len(vs[1]) > 2 else None
                     od = dv[1] if dv and dv[0] == "lin" else None
                     s = s.copy()
-                    s.events = s.events + (("loop-begin", lb[2] if lb and lb[0] == "label" and len(lb) > 2 else None, None if od is None else od.key()),)
+                    s.events = s.events + (("loop-begin", lb[2] if lb and lb[0] == "label" and len(lb) > 2 else None, None if od is None else (od - Lin(0, {"od0": 1})).key()),)
                     out.append(("n", s, ("loopctx", lb, od)))
             return out
         if cal.endswith("Vec::<T>::new") or cal.endswith("Vec::<T, A>::new") or H.last(cal) in ("new",) and "Vec" in cal:
@@ -1300,7 +1300,7 @@ class Engine:
                 s.h = s.h + Lin(eff)
             s.last, s.prev, s.landed = "Other", "Unknown", True
             s.order = s.order + ((key or H.render(argnodes[0]), cls),)
-            s.events = s.events + (("child", "expr", off, st.od.key()),)
+            s.events = s.events + (("child", "expr", off, (st.od - Lin(0, {"od0": 1})).key()),)
             return [("n", s, ("res_ok", UNIT))]
         if name == "compile_block_statement":
             if key is None:
@@ -1313,13 +1313,13 @@ class Engine:
                     s2.last, s2.prev, s2.landed = "Pop", ("Other" if is_expr else "Unknown"), (False if is_expr else True)
                 elif eff_last == "Other":
                     s2.last, s2.prev, s2.landed = "Other", "Unknown", True
-                s2.events = s2.events + (("child", "block", off, st.od.key()),)
+                s2.events = s2.events + (("child", "block", off, (st.od - Lin(0, {"od0": 1})).key()),)
                 s2.order = s2.order + ((key, "block"),)
                 out.append(("n", s2, ("res_ok", UNIT)))
             return out
         if name == "compile_statement":
             s.last, s.prev, s.landed = "Unknown", "Unknown", True
-            s.events = s.events + (("child", "stmt", off, st.od.key()),)
+            s.events = s.events + (("child", "stmt", off, (st.od - Lin(0, {"od0": 1})).key()),)
             return [("n", s, ("res_ok", UNIT))]
         raise Unsupported("recursive call of %s" % name)
 
